@@ -30,6 +30,9 @@ const attRel = "services/attester/standard"
 func runC04(p *core.Prog, r *core.Report, tier string) {
 	ds := core.NewDescriber()
 	fns := append(p.FuncsIn(attRel), p.FuncsIn("services/attester")...)
+	// the batch attestation signer splits the accounts by kind and merges the signatures back: part of
+	// "signed by that validator's account over the same values"
+	fns = append(fns, p.FuncsIn(signerRel)...)
 	runIndexSpaces(p, r, ds, "C04.a", fns, 10)
 
 	// locate the attestation constructor: function that allocates phase0.Attestation literals
